@@ -206,6 +206,31 @@ def judge_events(ck, desc):
     return mobile
 
 
+def _strict_fp(ck, desc, params):
+    """A caller who runs numpy with invalid / divide-by-zero trapped (np.errstate(invalid='raise'),
+    or RuntimeWarnings as errors) still gets finite numbers for admissible input: nothing inside the
+    call may manufacture a NaN or an infinity on the way, even one that is masked afterwards."""
+    import warnings
+
+    from bluebonnet.flow import relative_permeabilities
+
+    recs = _records(desc["sats"], desc.get("order", 0))
+    for mode in ("errstate-raise", "warnings-as-errors"):
+        n0 = len(EVENTS)
+        try:
+            if mode == "errstate-raise":
+                with np.errstate(invalid="raise", divide="raise"):
+                    relative_permeabilities(recs, params)
+            else:
+                with np.errstate(invalid="warn", divide="warn", over="warn", under="ignore"), warnings.catch_warnings():
+                    warnings.simplefilter("error")
+                    relative_permeabilities(recs, params)
+            ck.count(f"strict_fp_calls.{mode}")
+        except (FloatingPointError, RuntimeWarning) as e:
+            ck.violation("finite-without-fp-exception", {"mode": mode, "raised": repr(e)}, desc)
+        del EVENTS[n0:]
+
+
 def run_case(ck, desc):
     from bluebonnet.flow import RelPermParams, relative_permeabilities, relative_permeabilities_twophase
 
@@ -216,7 +241,7 @@ def run_case(ck, desc):
         if kind == "records":
             relative_permeabilities(_records(desc["sats"], desc.get("order", 0)), params)
             mob = judge_events(ck, desc)
-            return mob > 0, {"mobile_values": mob}
+            _strict_fp(ck, desc, params)
         if kind == "records" and len(desc["sats"]) >= 1:
             # twin call: the same records with every residual raised by 2e-6 right afterwards - phases
             # that sat within 1e-6 above their residual are now at or below it and must read exactly 0
@@ -235,6 +260,9 @@ def run_case(ck, desc):
                     q9[3 + ph] = p9[3 + ph] + 2e-6
                     relative_permeabilities(_records(sats[:1], desc.get("order", 0)), RelPermParams(*q9))
                 ck.count("twin_parameter_calls", 3)
+                mob += judge_events(ck, desc)
+        if kind == "records":
+            return mob > 0, {"mobile_values": mob}
         if kind == "ladder":
             ph, m = desc["phase"], desc["m"]
             s = np.zeros((m, 3))
